@@ -47,7 +47,7 @@ THEOREM_CLASSES = {
     "C14_reader_is_bn_from": "main",
     "C14_literal_roundtrip_partial": "main",
     "C14_int2str_str2int_roundtrip": "main",
-    "C14_str2int_sound_refuted": "refutation", "C14_str2int_sound_partial": "main",
+    "C14_str2int_sound": "main",
     "C14_todecsci_reads_back_partial": "main", "C14_todecsci_first_partial": "main",
     "C14_print_dot0_eq_lua": "main", "C14_force_fract_not_int_like": "main",
 }
@@ -55,7 +55,7 @@ MANIFEST_ENTRY = {
     "text": "proof, partial: theorems for the INTEGER half only - the literal reader (a recurrence in wrapped big-number arithmetic, "
             "shown equal to C17's verified limb-level model of bn.lua on valid digit strings, decimal overflow handed to the float "
             "reader), the C literal printer against ISO C11 6.4.4.1 for every integral type up to 64 bits (128-bit types excluded), the "
-            "int2str/str2int round trip for int64 base 10, which strings str2int accepts (refuted as the code is: a known finding), the "
+            "int2str/str2int round trip for int64 base 10, which strings str2int accepts (at least one digit), the "
             "'.0' rules of print and of emitted float literals, and the decision ladder of bn.todecsci with the 17-digit fact as a "
             "PREMISE; every FLOAT clause (correct rounding of decimal and hexadecimal float literals, run-time tonumber / tostring / "
             "%.14g, float32, the 17-digit round trip itself) rests on differential testing against exact rational arithmetic only",
@@ -71,7 +71,7 @@ UNPROVED = [
     "'17 digits and back is the identity' is a PREMISE of C14_todecsci_reads_back_partial, not a theorem; the exponent clean-up gsub('([Ee][+-])0+','%1') and the forced '.0' applied after the ladder are not covered by it (C14_force_fract_not_int_like covers the shape of the '.0' only); the float32 ladder (decimaldigits < 16, 9 digits) is not modelled",
     "printing integers: only the int64 base-10 round trip through the model's own str2int is proved (it would also hold for a printer of x + 2^64); no theorem that the digits are the decimal expansion, none for uint2str, other bases, or print's cast chain %lli / %llu for the narrower types (tested)",
     "literal typing (nl_literal_type mirrors visitors.Number): no theorem, tested against the real analyzer; no end-to-end theorem composing read, type, emit and c_eval; C14_literal_roundtrip_partial excludes int128 / uint128 and assumes LP64",
-    "str2int: prefix handling and wrap-around are modelled and tested, the only acceptance theorem is C14_str2int_sound_partial (refuted in full: known finding); decimal strings beyond int64 wrap where Lua gives a float: tested, documented, no theorem",
+    "str2int: prefix handling and wrap-around are modelled and tested, the acceptance theorem is C14_str2int_sound (a digit is required); no theorem that every accepted string has Lua's numeral shape (sign, prefix, digits, blanks) - the 620-case numeral stream with Lua's tonumber as oracle covers that; decimal strings beyond int64 wrap where Lua gives a float: tested, documented, no theorem",
     "C14_reader_value_mod / _eq_lua_mod64 are identities of modular arithmetic (classified definitional); Lua's own reader is not modelled - 'the value Lua's reader assigns' is the comment 'wrap64 of the mathematical value' checked by the read stream against Python integers",
     "hard-coded in Model.v although it comes from the source: PRINT_BUF (sizeof(buff) in cbuiltins), the default literal type int64, the suffix table (scraped to Python only), the control flow of add_scalar_literal; the type of the emitted C constant is never probed with a C compiler (_Generic), only its value",
 ]
@@ -594,12 +594,6 @@ def correspond(ctx):
             if got != want:
                 if got == "!sig6":
                     dist["numeral:port-stops-where-lua-has-an-integer"] = dist.get("numeral:port-stops-where-lua-has-an-integer", 0) + 1
-                elif line not in STR2INT_WITNESSES and lua_v == "nil" and mod == got and numeral_has_no_digit(t, b) \
-                        and any(l == STR2INT_WITNESSES[0] and g != "!sig6" for l, g in zip(rt_lines, ol)):
-                    # Lua has no integer, the port returns the value the extracted model of the UNCHANGED code returns, and the
-                    # digit loop of strconv.str2int consumed nothing: the known missing "at least one digit" test.  Designated
-                    # witnesses are reported under their exact keys; these are counted; anything else is a VIOLATION
-                    dist["predicted-by-model:strconv.str2int:no-digit-check(string)"] = dist.get("predicted-by-model:strconv.str2int:no-digit-check(string)", 0) + 1
                 else:
                     viol(line, "run time: tointeger(%r%s) gives %s where Lua gives %s" % (t, "" if b is None else ", %d" % b, got, lua_v),
                          {"case": line, "implementation": got, "oracle": lua_v, "model": mod})
@@ -681,7 +675,8 @@ WITNESS_HEXEXP = "0x1p-1030"                                  # repaired: replay
 # OPEN finding, strconv.str2num double rounding: designated exact witnesses (known_findings/C14.json keys)
 STR2NUM_WITNESSES = ["tonumber " + X(t) for t in ("1e+126", "32e+126", "10e+125", "3828199250360920e-128")]
 WITNESS_STR2NUM = STR2NUM_WITNESSES[0]
-# OPEN finding, strconv.str2int accepts numerals without a digit: designated exact witnesses
+# REPAIRED (4928697) strconv.str2int accepted numerals without a digit: the six witnesses are replayed on every run (they are
+# part of the fixed list of the numeral stream) and must stop like Lua's nil
 STR2INT_WITNESSES = ["tointeger x2d", "tointeger x2b", "tointeger x3078", "tointeger x3062", "tointeger x202d20", "tointeger_b x2d 16"]
 
 
@@ -690,26 +685,6 @@ def str2num_witness_fails(rt_lines, ol):
         if l == WITNESS_STR2NUM:
             return g != "f%016x" % f64_bits(1e126)
     return False
-
-
-def numeral_has_no_digit(t, base):
-    """the digit loop of str2int consumes nothing: after blanks, one sign and (base detection only) a 0x/0b prefix followed by
-    at least one more character, the next character is not a digit of the base"""
-    u = t.lstrip(" \t\n\v\f\r")
-    if u[:1] in ("+", "-"):
-        u = u[1:]
-    b = base
-    if base is None:
-        b = 10
-        if len(u) >= 2 and u[0] == "0" and u[1] in "xXbB":
-            b = 16 if u[1] in "xX" else 2
-            u = u[2:]
-    if not u:
-        return True
-    try:
-        return int(u[0], 36) >= b
-    except ValueError:
-        return True
 
 
 def build_driver(ctx):
